@@ -9,9 +9,9 @@ reg("C27",
               "many-seeds schedules; judged by 'a tick started after the wake' at executor quiescence",
     text="Every (program point | in-tick | idle | between calls | mid-suspension) x occurrence 0..3 window, "
          "singly and in all unordered pairs, for 16 runner variants (run(), repeated run_available(), "
-         "while-run_tick driver; ~30 000 enumerated executions + sampled triples), and 20 000 (quick) / "
-         "2 000 000 (thorough) wakes from 1-2 real threads racing run(); the same program under Miri with "
-         "8 / 4x64 scheduler+weak-memory seeds. Each wake must be followed by the start of a tick before "
+         "while-run_tick driver; 26 452 enumerated executions + 6 000 / 300 000 sampled triples), and 100 000 "
+         "(quick) / 3 000 000 (thorough) wakes from 1-2 real threads racing run(); a thin slice of the same "
+         "program (80 cross-thread wakes per execution) under Miri with 8 / 4x64 scheduler+weak-memory seeds. Each wake must be followed by the start of a tick before "
          "the runner comes to rest; never wall-clock.",
     note="Windows inside WakeState::wake_by_ref (between the flag store and the task wake) are reached "
          "deterministically only through the executor's own Waker (idle runner); otherwise only by the "
